@@ -459,7 +459,7 @@ func runPerm(t *testing.T, sched simrt.Schedule, prog permProg) ([]Violation, Ru
 				simrt.Probe("fault.store_err")
 			}
 			if failed && w.Disk.Dump() != e.DiskDump {
-				faultTaint[e.Topic] = faultedHandler(m)
+				faultTaint[e.Topic] = faultedHandler(m, e.Actor.UserId())
 			}
 			out = append(out, relabel(permInvariants(w, post, where))...)
 			// a {set} from a session that is not attached is served by replyOfflineTopicSetSub straight from the
@@ -484,7 +484,7 @@ func runPerm(t *testing.T, sched simrt.Schedule, prog permProg) ([]Violation, Ru
 					}
 				}
 			}
-			cause := faultedHandler(m)
+			cause := faultedHandler(m, e.Actor.UserId())
 			if strings.HasPrefix(e.Topic, "p2p") {
 				cause += "-p2p"
 			}
@@ -513,10 +513,14 @@ func runPerm(t *testing.T, sched simrt.Schedule, prog permProg) ([]Violation, Ru
 						cat = "-p2p"
 					}
 					sig := diffSignature(e.DiskDump, d)
-					key := "refused-request-changed-store " + faultedHandler(m) + cat + " [" + sig + "]"
+					stage := ""
+					if e.Pre.Topics[e.Topic] == nil {
+						stage = " unloaded" // the request had to load (or create) the topic first
+					}
+					key := "refused-request-changed-store " + faultedHandler(m, e.Actor.UserId()) + cat + stage + " [" + sig + "]"
 					if failed {
 						// a store call other than the first one of a multi-call handler failed: what the earlier calls wrote stays
-						key = "store-fault-partial-effect " + faultedHandler(m) + cat
+						key = "store-fault-partial-effect " + faultedHandler(m, e.Actor.UserId()) + cat
 						ps.faultLate++
 					}
 					// UpdateLastSeen / device records are not part of the topic state
@@ -526,7 +530,7 @@ func runPerm(t *testing.T, sched simrt.Schedule, prog permProg) ([]Violation, Ru
 				}
 			}
 			if failed && !s.Answered && p.C.Connected {
-				out = append(out, vio("C14", "unanswered-after-store-failure "+faultedHandler(m), "request %s got no reply after an injected store failure", canon(m)))
+				out = append(out, vio("C14", "unanswered-after-store-failure "+faultedHandler(m, e.Actor.UserId()), "request %s got no reply after an injected store failure", canon(m)))
 			}
 			// transition analysis per (topic, user) on group and p2p topics
 			actor := e.Actor
@@ -924,7 +928,7 @@ func actorKind(e *permExp, p *isoProbe) string {
 }
 
 // faultedHandler names the request kind for known-finding keys.
-func faultedHandler(m *ClientComMessage) string {
+func faultedHandler(m *ClientComMessage, self ...string) string {
 	switch {
 	case m.Sub != nil:
 		if strings.HasPrefix(m.Sub.Topic, "new") || strings.HasPrefix(m.Sub.Topic, "nch") {
@@ -937,7 +941,7 @@ func faultedHandler(m *ClientComMessage) string {
 			parts = append(parts, "desc")
 		}
 		if m.Set.Sub != nil {
-			if m.Set.Sub.User != "" {
+			if m.Set.Sub.User != "" && !(len(self) > 0 && m.Set.Sub.User == self[0]) {
 				parts = append(parts, "sub-other")
 			} else {
 				parts = append(parts, "sub-self")
